@@ -591,8 +591,14 @@ fn descendant_and_self(node: dom::XmlNode) -> Vec<dom::XmlNode> {
 fn following(node: dom::XmlNode) -> Vec<dom::XmlNode> {
     let mut nodes = vec![];
 
-    for n in following_sibling(node) {
-        nodes.append(&mut descendant_and_self(n));
+    // Everything after the node in document order that is not a descendant: the subtrees of
+    // the following siblings of the node and of each of its ancestors.
+    let mut current = Some(node);
+    while let Some(c) = current {
+        for n in following_sibling(c.clone()) {
+            nodes.append(&mut descendant_and_self(n));
+        }
+        current = c.parent_node();
     }
 
     nodes
@@ -627,10 +633,16 @@ fn namespace(node: dom::XmlNode) -> Vec<dom::XmlNode> {
 fn preceding(node: dom::XmlNode) -> Vec<dom::XmlNode> {
     let mut nodes = vec![];
 
-    for p in preceding_sibling(node) {
-        let mut desc = descendant_and_self(p);
-        desc.reverse();
-        nodes.append(&mut desc);
+    // Everything before the node in document order that is not an ancestor: the subtrees of
+    // the preceding siblings of the node and of each of its ancestors.
+    let mut current = Some(node);
+    while let Some(c) = current {
+        for p in preceding_sibling(c.clone()) {
+            let mut desc = descendant_and_self(p);
+            desc.reverse();
+            nodes.append(&mut desc);
+        }
+        current = c.parent_node();
     }
 
     nodes
